@@ -1487,3 +1487,210 @@ func RNumCheck(c *core.Ctx) {
 		c.Anchor("non-empty answers of GroupNameFromNumber")
 	}
 }
+
+// ---------------------------------------------------------------------------
+// R-SEARCHSTEP: the plain searches of package helpers try EVERY start
+// position.  In a counting loop `for i := …; …; i++` whose body returns i as
+// the position found, the body does not move i itself: skipping ahead after a
+// failed partial comparison is only sound with a failure table (an occurrence
+// may begin inside the text just compared: "abaa" in "ababaa").
+// ---------------------------------------------------------------------------
+
+func RSearchStep(c *core.Ctx) {
+	c.Rule("R-SEARCHSTEP", "in package helpers a counting loop (for i := …; cond; i++ / i--) that returns its loop variable as the position of an occurrence changes that variable only in its post statement: no `i += k` / `i = …` in the body", 3)
+	p := c.P
+	pk := p.Pkg("helpers")
+	if pk == nil {
+		c.Anchor("package helpers")
+		return
+	}
+	info := pk.TypesInfo
+	n := 0
+	for _, fd := range p.FuncDecls(pk) {
+		if fd.Body == nil || p.IsTestFile(fd.Pos()) {
+			continue
+		}
+		name := core.DeclName(pk, fd)
+		ast.Inspect(fd.Body, func(x ast.Node) bool {
+			fs, ok := x.(*ast.ForStmt)
+			if !ok || fs.Post == nil {
+				return true
+			}
+			inc, ok := fs.Post.(*ast.IncDecStmt)
+			if !ok {
+				return true
+			}
+			id, ok := inc.X.(*ast.Ident)
+			if !ok {
+				return true
+			}
+			v := info.ObjectOf(id)
+			returnsV := false
+			ast.Inspect(fs.Body, func(y ast.Node) bool {
+				if rs, ok := y.(*ast.ReturnStmt); ok {
+					for _, r := range rs.Results {
+						if rid, ok := ast.Unparen(r).(*ast.Ident); ok && info.ObjectOf(rid) == v {
+							returnsV = true
+						}
+					}
+				}
+				return true
+			})
+			if !returnsV {
+				return true
+			}
+			n++
+			c.Visit(name)
+			var moved ast.Node
+			ast.Inspect(fs.Body, func(y ast.Node) bool {
+				switch z := y.(type) {
+				case *ast.AssignStmt:
+					for _, l := range z.Lhs {
+						if lid, ok := l.(*ast.Ident); ok && info.ObjectOf(lid) == v {
+							moved = z
+						}
+					}
+				case *ast.IncDecStmt:
+					if lid, ok := z.X.(*ast.Ident); ok && info.ObjectOf(lid) == v {
+						moved = z
+					}
+				}
+				return true
+			})
+			if moved != nil {
+				c.Bad(fmt.Sprintf("%s / search loop #%d advances its position only in the post statement", name, n), moved.Pos(), "the body changes %s itself: start positions are skipped, and an occurrence that begins inside the text of a failed partial comparison is lost", id.Name)
+			} else {
+				c.OK(fmt.Sprintf("%s / search loop #%d advances its position only in the post statement", name, n), fs.Pos(), "every start position is tried")
+			}
+			return true
+		})
+	}
+	if n == 0 {
+		c.Anchor("counting search loops in package helpers")
+	}
+}
+
+// ---------------------------------------------------------------------------
+// R-REWINDFIRST: a scanner that can give up and hand its text back remembers
+// where it STARTED.  Where a parser method saves the position in its own
+// top-level statement list (v := p.textpos()) and later rewinds to it
+// (p.textto(v)), nothing before the save has consumed pattern text: otherwise
+// the rewind re-reads from the middle of the construct (`${key}` that does not
+// resolve comes back as `$key}`).
+// ---------------------------------------------------------------------------
+
+var rewindFirstExempt = map[string]string{
+	"syntax.(*parser).scanCharEscape": "the save deliberately comes after the escape letter: the ECMAScript fallback returns exactly that letter as a literal and resumes behind it",
+}
+
+func RRewindFirst(c *core.Ctx) {
+	c.Rule("R-REWINDFIRST", "in a parser method that saves the text position at the top level of its body (v := p.textpos()) and rewinds to it (p.textto(v)), no statement before the save calls anything that moves the position (moveRight*, textto, the scan* helpers): the saved position is where the construct begins", 2)
+	p := c.P
+	syn := p.Pkg("syntax")
+	info := syn.TypesInfo
+	textpos := p.LookupFunc("syntax", "parser.textpos")
+	textto := p.LookupFunc("syntax", "parser.textto")
+	prims := map[*types.Func]bool{}
+	for _, nm := range []string{"parser.moveRight", "parser.moveRightGetChar", "parser.moveLeft", "parser.textto"} {
+		if f := p.LookupFunc("syntax", nm); f != nil {
+			prims[f] = true
+		}
+	}
+	if textpos == nil || textto == nil || len(prims) < 3 {
+		c.Anchor("parser.textpos / parser.textto / position primitives")
+		return
+	}
+	memo := map[*types.Func]bool{}
+	var moves func(fn *types.Func, depth int) bool
+	moves = func(fn *types.Func, depth int) bool {
+		if fn == nil {
+			return false
+		}
+		if prims[fn] {
+			return true
+		}
+		if v, ok := memo[fn]; ok {
+			return v
+		}
+		memo[fn] = false
+		if depth > 5 || fn.Pkg() != syn.Types {
+			return false
+		}
+		fd, _ := p.DeclOf(fn)
+		if fd == nil || fd.Body == nil {
+			return false
+		}
+		res := false
+		ast.Inspect(fd.Body, func(x ast.Node) bool {
+			if call, ok := x.(*ast.CallExpr); ok && !res {
+				if cal := core.Callee(info, call); cal != nil && cal != fn && moves(cal, depth+1) {
+					res = true
+				}
+			}
+			return !res
+		})
+		memo[fn] = res
+		return res
+	}
+	n := 0
+	for _, fd := range p.FuncDecls(syn) {
+		if fd.Body == nil || fd.Recv == nil || p.IsTestFile(fd.Pos()) {
+			continue
+		}
+		name := core.DeclName(syn, fd)
+		for i, st := range fd.Body.List {
+			as, ok := st.(*ast.AssignStmt)
+			if !ok || len(as.Lhs) != 1 || len(as.Rhs) != 1 {
+				continue
+			}
+			call, ok := ast.Unparen(as.Rhs[0]).(*ast.CallExpr)
+			if !ok || !core.IsCallTo(info, call, textpos) {
+				continue
+			}
+			id, ok := as.Lhs[0].(*ast.Ident)
+			if !ok {
+				continue
+			}
+			v := info.ObjectOf(id)
+			// rewound to somewhere in the function?
+			rewinds := false
+			ast.Inspect(fd.Body, func(x ast.Node) bool {
+				if c2, ok := x.(*ast.CallExpr); ok && core.IsCallTo(info, c2, textto) && len(c2.Args) == 1 {
+					if aid, ok := ast.Unparen(c2.Args[0]).(*ast.Ident); ok && info.ObjectOf(aid) == v {
+						rewinds = true
+					}
+				}
+				return true
+			})
+			if !rewinds {
+				continue
+			}
+			n++
+			c.Visit(name)
+			if reason, ok := rewindFirstExempt[name]; ok {
+				c.OK(fmt.Sprintf("%s / the position %s rewinds to is saved before anything is consumed (exempt)", name, id.Name), as.Pos(), "%s", reason)
+				continue
+			}
+			var mover ast.Node
+			for _, before := range fd.Body.List[:i] {
+				ast.Inspect(before, func(x ast.Node) bool {
+					if c2, ok := x.(*ast.CallExpr); ok && mover == nil {
+						if cal := core.Callee(info, c2); cal != nil && moves(cal, 0) {
+							mover = c2
+						}
+					}
+					return mover == nil
+				})
+			}
+			key := fmt.Sprintf("%s / the position %s rewinds to is saved before anything is consumed", name, id.Name)
+			if mover != nil {
+				c.Bad(key, mover.Pos(), "`%s` can move the position before `%s := p.textpos()` is reached: the rewind then lands inside the construct, and the characters in front of it are lost", types.ExprString(mover.(*ast.CallExpr)), id.Name)
+			} else {
+				c.OK(key, as.Pos(), "nothing in front of the save moves the position")
+			}
+		}
+	}
+	if n == 0 {
+		c.Anchor("top-level position saves that are rewound to, in parser methods")
+	}
+}
